@@ -10,6 +10,7 @@ def pNat (s : String) : Nat := s.toNat?.getD 0
 def pF (s : String) : F := Float32.ofBits (UInt32.ofNat (pNat s))
 def showF (x : F) : String := toString x.toBits.toNat
 def allInts (toks : List String) : Bool := toks.all (fun t => t.toInt?.isSome)
+def allNats (toks : List String) : Bool := toks.all (fun t => t.toNat?.isSome)
 def showInts (l : List Int) : String := " ".intercalate (l.map toString)
 def showNats (l : List Nat) : String := " ".intercalate (l.map toString)
 def showFs (l : List F) : String := " ".intercalate (l.map showF)
